@@ -717,6 +717,32 @@ def run_domain_ops(case, name, which, desc, dom):
         except NotImplementedError:
             case.lines.append((inp, {"err": "not-implemented"}))
             case.count("is_valid-not-implemented")
+    # cast of numbers that are not members (correspondence only: the property speaks of members)
+    extra = []
+    if isinstance(dom, CS.Integer):
+        extra = [dom.lower + 0.5, dom.lower + 1.5, dom.upper - 0.3, float(dom.lower) + rng.random()]
+    elif isinstance(dom, CS.FiniteRange):
+        w = float(dom.upper - dom.lower)
+        extra = [float(dom.lower) + w * rng.random(), float(dom.lower) + w * rng.random(), float(dom.upper) + abs(w) + 1.0]
+        if not dom.log_scale:
+            extra.append(float(dom.lower) - abs(w) - 1.0)
+    elif isinstance(dom, CS.OrdinalNearestNeighbor):
+        cs_ = [float(x) for x in dom.categories]
+        extra = [cs_[0] + (cs_[-1] - cs_[0]) * rng.random() for _ in range(3)] + [cs_[-1] * 2 if cs_[-1] > 0 else cs_[-1] + 1.0]
+        if dom.log_scale:
+            extra = [e for e in extra if e > 0]
+    elif isinstance(dom, CS.Categorical) and dom.value_type is float:
+        extra = [c_ * (1.0 + 1e-5) for c_ in dom.categories[:3] if c_ != 0.0]
+    for v in extra:
+        if isinstance(v, float) and not math.isfinite(v):
+            continue
+        inp = {"op": "cast", "hp": name, "which": which, "value": val_wire(v), "member": False}
+        try:
+            c = dom.cast(v)
+            case.lines.append((inp, {"val": val_wire(c)}))
+            case.count("cast-nonmember:" + tag)
+        except Exception as e:  # noqa
+            case.lines.append((inp, {"err": errname(e)}))
     outsiders = []
     if isinstance(dom, (CS.Float, CS.Integer)):
         w = max(1, abs(dom.upper - dom.lower), abs(dom.upper), abs(dom.lower))
@@ -893,6 +919,12 @@ def run_case(spec):
                                  f"from_ndarray(to_ndarray({cfg[n]!r})) = {back[n]!r} (nearest grid point in log space of the rounded value is another entry)",
                                  {"domain": descs[n], "value": repr(cfg[n]), "back": repr(back[n])})
                     continue
+                if descs[n]["k"] in ("lograndint", "qlograndint") and descs[n]["hi"] >= 2 ** 40:
+                    case.finding("c07:lograndint-roundtrip-inexact-huge",
+                                 f"lograndint({descs[n]['lo']},{descs[n]['hi']}): from_ndarray(to_ndarray({cfg[n]!r})) = {back[n]!r} "
+                                 f"(exp(log(k)) does not resolve integers of this size)",
+                                 {"domain": descs[n], "value": repr(cfg[n]), "back": repr(back[n])})
+                    continue
                 if descs[n]["k"] == "reverseloguniform" and abs(float(cfg[n])) < 1e-6:
                     case.finding("c07:reverseloguniform-roundtrip-precision-near-zero",
                                  f"reverseloguniform({descs[n]['lo']!r},{descs[n]['hi']!r}): from_ndarray(to_ndarray({cfg[n]!r})) = {float(back[n])!r}, "
@@ -962,6 +994,12 @@ def run_case(spec):
         if label.startswith("box") and "value_for_last_pos" in kwargs:
             n = kwargs["name_last_pos"]
             if not same_value(descs[n], doms[n], cfg[n], kwargs["value_for_last_pos"]):
+                if descs[n]["k"] in ("lograndint", "qlograndint") and descs[n]["hi"] >= 2 ** 40:
+                    case.finding("c07:lograndint-roundtrip-inexact-huge",
+                                 f"lograndint({descs[n]['lo']},{descs[n]['hi']}) as fixed last position: the bounds box decodes to {cfg[n]!r}, "
+                                 f"value_for_last_pos {kwargs['value_for_last_pos']!r} (exp(log(k)) does not resolve integers of this size)",
+                                 {"domain": descs[n], "value": repr(kwargs["value_for_last_pos"]), "back": repr(cfg[n])})
+                    continue
                 case.finding("c07:fixed-last-not-kept:" + kind_tag(descs[n]),
                              f"fixed last position {n}: box point decodes to {cfg[n]!r}, value_for_last_pos {kwargs['value_for_last_pos']!r}",
                              {"domain": descs[n]})
